@@ -31,6 +31,15 @@ import BGV
 #print axioms BGV.C03_add_present_keeps_label
 #print axioms BGV.C03_recreate_shows_new_label
 
+-- C04
+#print axioms BGV.C04_dir_inv_reachable
+#print axioms BGV.C04_dir_refines
+#print axioms BGV.C04_dir_getEdgeMultiplicity
+#print axioms BGV.C04_dir_zero_iff_no_edge
+#print axioms BGV.C04_dir_edgeNumber
+#print axioms BGV.C04_dir_total
+#print axioms BGV.C04_dir_outDegree
+
 -- C06
 #print axioms BGV.C06_eq_iff_same_graph
 #print axioms BGV.C06_refl
